@@ -50,6 +50,13 @@ CLAIMS = {
         "note": "ForLoopIterator is abstracted to the sequence still to be yielded; maps are opaque with a lookup view; compilation of if/for/break/continue and the capture/set arms are not decided.",
         "design_ref": "DESIGN.md section 4 C03",
     },
+    "C04": {
+        "engine": "V",
+        "technique": "Verus contracts and in-body obligations on the RenderBlock and CallFunction(super) arms of interpret lifted mechanically (arm extraction; the re-entry into interpret is a trusted declaration carrying the inductive hypothesis), on render_to, and on find_parents",
+        "text": "Proof of the DISPATCH half for all VM states: RenderBlock runs lineage[0] (the most-derived definition) with the block pushed at level 0 and recorded as current, is an error when the block has no lineage, restores chunk/current block/block stack and lets a failing body surface; super() looks up the TOPMOST entry of the current block, is an error outside a block or at the last level, runs lineage[level + 1] with level + 1 recorded and the capture stack set aside, restores everything and yields the parent's text minted safe; render_to starts from the chunk of parents[0] and find_parents returns the chain root-first.",
+        "note": "NOT decided: lineage construction in finalize_templates (which definitions end up in a block's lineage, 'child blocks must exist in some ancestor'), single-block capture. The nested interpret call is assumed to leave the block bookkeeping as it found it (inductive hypothesis); the VM invariants about the block stack are arm preconditions.",
+        "design_ref": "DESIGN.md section 0 and section 3 (C04)",
+    },
     "C05": {
         "engine": "V+T+K",
         "technique": "Verus on the extracted render_component/render_include (depth guard; interpret's precondition is the depth invariant), engine T on the VM call graph, Kani table for type matching",
@@ -103,7 +110,6 @@ CLAIMS = {
 
 _PENDING = "no check is registered for this property yet in this build of the machinery"
 NOT_APPLICABLE = {
-    "C04": "block lineage is computed inline in the 150-line finalize_templates over nested HashMaps and consumed by interpreter arms that re-enter interpret: no function within reach of Verus or Kani carries it (DESIGN.md section 3)",
     "C10": "atomic registration is a property of histories of add_raw_templates implemented by a closure capturing &mut self (rejected by Verus) plus finalize_templates (out of reach, see C04); Kani cannot execute the registry (HashMap of templates) (DESIGN.md section 3)",
 }
 for _p in ["C01", "C02", "C03", "C05", "C06", "C07", "C08", "C09", "C11", "C12", "C14", "C15", "C16", "C17", "C18", "C19", "C20"]:
